@@ -20,7 +20,7 @@ RULE = ('(a) vsched harness (see C17): 2-6 threads on one shared memory (min 1, 
         'descriptor. Non-trivial = schedule with >= 2 successful grows, one of them preempted between its start and its lock '
         'acquisition by the other, or a failing grow; distinct by (programs, decision string). Large memories: a shared memory '
         'with a maximum of 9000-33000 pages is grown from 1 page to its maximum in generated steps (1-16383 pages) by 1-3 threads '
-        'while 1-3 others store / load / fill in the first page (real threads; ThreadSanitizer, AddressSanitizer and optimised '
+        'while 1-3 others store / load / fill in the first page and in the newest page memory.size reports (real threads; ThreadSanitizer, AddressSanitizer and optimised '
         'builds): no report, every store read back, grow results form one chain, final size = 1 + successful deltas.')
 ASSUME = ['linearization point = acquisition of the memory mutex, the mechanism the property names', 'schedules are sampled']
 
@@ -175,13 +175,16 @@ static void* grower(void* p) {
 }
 static int userno;
 static void* user(void* p) {
-    mInstance* i = (mInstance*)p; unsigned k = 0; U32 cell = 4096 + 64 * (U32)__sync_fetch_and_add(&userno, 1);
+    mInstance* i = (mInstance*)p; unsigned k = 0; int id = __sync_fetch_and_add(&userno, 1); U32 cell = 4096 + 64 * (U32)id;
     pthread_barrier_wait(&bar);
     while (!__atomic_load_n(&done, __ATOMIC_RELAXED)) {
         k++;
+        /* every second user works at the frontier: in the newest page memory.size reports (a page another thread's grow has just
+           added is as much part of the memory as the first one) */
+        if (id % 2 == 1) cell = (m_size(i) - 1) * 65536u + 1024u + 64u * (U32)id;
         m_store32(i, cell, k);
         if (m_load32(i, cell) != k) __sync_fetch_and_add(&mism, 1);
-        if ((k & 63) == 0) { m_fill(i, cell + 16384, k, 32); (void)m_size(i); }
+        if ((k & 63) == 0) { m_fill(i, (id % 2 == 1 ? 4096u + 64u * (U32)id : cell) + 16384, k, 32); (void)m_size(i); }
         __sync_fetch_and_add(&progress, 1);
     }
     return NULL;
@@ -241,7 +244,7 @@ def run_big(case):
     if r.returncode != 0:
         locs = [l.strip() for l in err.splitlines() if l.strip().startswith('#0') or 'ERROR: AddressSanitizer' in l][:2]
         return ('big:' + f1.normalize_diag(' '.join(locs) or 'exit %d' % r.returncode)[:80],
-                'shared memory with a maximum of %d pages, growers %d, users %d (%s): exit %d: %s' % (case['maxpages'], case['G'], case['U'], case['build'], r.returncode, err[:1500]))
+                'shared memory with a maximum of %d pages, growers %d, users %d (%s): exit %d: %s' % (case['maxpages'], case['G'], case['U'], case['build'], r.returncode, cexec.san_head(err, 1500)))
     grows, pages, mism = [], None, None
     for ln in r.stdout.decode().splitlines():
         p = ln.split()
@@ -276,7 +279,7 @@ def big_task(wid, seed, params):
             deltas.append(d)
             tot += d
         case = {'kind': 'big', 'build': params['builds'][(wid + ci) % len(params['builds'])], 'maxpages': maxpages, 'G': ch.pick((1, 2, 3)),
-                'U': ch.pick((1, 2, 3)), 'K': ch.pick((20, 200, 1000)), 'deltas': deltas, 'imported': ch.below(3) == 0}
+                'U': ch.pick((1, 2, 2, 3)), 'K': ch.pick((20, 200, 1000)), 'deltas': deltas, 'imported': ch.below(3) == 0}
         try:
             bad = run_big(case)
         except cexec.InfraError as e:
